@@ -393,49 +393,38 @@ def bestAlias (aliases : List (Name Ã— Path)) (proj nrp : Path) : Option (Name Ã
 def aliasPath (alias : Name Ã— Path) (nrp : Path) : Path :=
   push (components alias.1) (nrp.drop alias.2.length)
 
-/-- PathRequireMode::generate_require (the string written as the new argument) -/
+/-- PathRequireMode::generate_require (the string written as the new argument). The found file
+path is normalised first, however it is spelled (before the fix of F28 a leading `.`/`..` was
+taken for "relative to the requiring file"). -/
 def generateRequirePath (m : PathMode) (proj requirePath current : Path) : List Char :=
   let source := normalize false current
+  let nrp := normalize false requirePath
   let g :=
-    if isRequireRelative requirePath then requirePath
-    else
-      let nrp := normalize false requirePath
-      match bestAlias m.sources proj nrp with
-      | some al => aliasPath al nrp
-      | none =>
-        match getRelativePath nrp source with
-        | some rel => if !startsDot rel then push [.cur] rel else rel
-        | none => nrp
+    match bestAlias m.sources proj nrp with
+    | some al => aliasPath al nrp
+    | none =>
+      match getRelativePath nrp source with
+      | some rel => if !startsDot rel then push [.cur] rel else rel
+      | none => nrp
   writeRequirePath (stripForRequire m.folder g)
 
 /-- LuauRequireMode::generate_require -/
 def generateRequireLuau (m : LuauMode) (proj requirePath current : Path) : List Char :=
   let source := normalize false current
+  let nrp := normalize false requirePath
   let g :=
-    if isRequireRelative requirePath then
-      if isModuleFolderName initName source then
-        let n := requirePath.length - (if isModuleFolderName initName requirePath then 1 else 0)
-        let pc := requirePath.take n
-        reparse (match pc with
-          | .cur :: t => .normal selfName :: t
-          | .parent :: .parent :: t => .parent :: t
-          | .parent :: t => .cur :: t
-          | _ => pc)
-      else requirePath
-    else
-      let nrp := normalize false requirePath
-      match bestAlias m.aliases proj nrp with
-      | some al => aliasPath al nrp
-      | none =>
-        match getRelativePath nrp source with
-        | some rel =>
-          if isModuleFolderName initName source then
-            if rel.head? == some .cur then push [.normal selfName] (rel.drop 1)
-            else if [Comp.parent, Comp.parent].isPrefixOf rel then reparse (rel.drop 1)
-            else if rel.head? == some .parent then push [.cur] (rel.drop 1)
-            else rel
-          else if !startsDot rel then push [.cur] rel else rel
-        | none => nrp
+    match bestAlias m.aliases proj nrp with
+    | some al => aliasPath al nrp
+    | none =>
+      match getRelativePath nrp source with
+      | some rel =>
+        if isModuleFolderName initName source then
+          if rel.head? == some .cur then push [.normal selfName] (rel.drop 1)
+          else if [Comp.parent, Comp.parent].isPrefixOf rel then reparse (rel.drop 1)
+          else if rel.head? == some .parent then push [.cur] (rel.drop 1)
+          else rel
+        else if !startsDot rel then push [.cur] rel else rel
+      | none => nrp
   writeRequirePath (stripForRequire initName g)
 
 inductive Mode where
@@ -483,9 +472,7 @@ def convertRequire (current target : Mode) (proj : Path) (isFile : Path â†’ Bool
   | .ok found => some (target.generate proj found source)
   | .error _ => none
 
-/-- hypothesis of `convert_keeps_target_partial`: the resolved file path is not itself
-spelled relative to the working directory with a leading `.`/`..` (F28) -/
-def HConv (found : Path) : Bool := !isRequireRelative found
+
 
 /-- the requiring file path ends in a name -/
 def endsInName (source : Path) : Bool :=
